@@ -93,7 +93,7 @@ func rulesSpec(prop string) func(tier, scenario string) seqx.Spec {
 		dl := 110 * time.Second
 		switch prop {
 		case "C05":
-			depth, maxFault = 6, 0
+			depth, maxFault = 5, 0 // counted from the state in which both peers are associated (see New below)
 		case "C08":
 			depth, maxFault = 4, 0
 		}
@@ -119,6 +119,15 @@ func rulesSpec(prop string) func(tier, scenario string) seqx.Spec {
 						}
 					}
 					r.mods = m
+				}
+				if prop == "C05" {
+					// start from the state in which A and B are associated (not counted in the depth): every
+					// isolation scenario needs both, and re-association stays in the alphabet
+					for p := 0; p < 2; p++ {
+						if res := r.Apply(seqx.Ev("Assoc", int64(p), int64(p))); len(res.Viols) > 0 {
+							evid.Infra("C05 prefix: %v", res.Viols)
+						}
+					}
 				}
 				return r
 			}}
@@ -781,5 +790,5 @@ func RunC01(tier string) {
 }
 
 func RunC05(tier string) {
-	runRules("C05", tier, "2 peers with colliding CP SEIDs and rule ids, <=2 (thorough 3) live sessions, modifications, deletion, re-association, SEID-0 report responses, buffered-packet pushes, takeover by a fresh node id and (terminal step) by the id of the other associated node, all histories to depth %d (completed %d)")
+	runRules("C05", tier, "2 peers with colliding CP SEIDs and rule ids, <=2 (thorough 3) live sessions, modifications, deletion, re-association, SEID-0 report responses, buffered-packet pushes, takeover by a fresh node id and (terminal step) by the id of the other associated node; start state: both peers associated; all histories to depth %d from there (completed %d)")
 }
